@@ -33,9 +33,11 @@ def xptCmd (args : List String) : String :=
   | [kind, mode, n, count, seed, cap] =>
     match n.toNat?, count.toNat?, seed.toNat?, cap.toNat? with
     | some n, some count, some seed, some cap =>
+      let bidir := mode.endsWith "d"
+      let mode := if bidir then (mode.dropRight 1) else mode
       let skbuf := mode = "bs" ∨ mode = "nbs"
       let mode := if mode = "bs" then "b" else if mode = "nbs" then "nb" else mode
-      if !(kind = "chan" ∨ kind = "unix") ∨ !(mode = "b" ∨ mode = "nb") ∨ (skbuf ∧ kind ≠ "unix") ∨ n < 1 ∨ n > 8 ∨ cap < 8 ∨ cap > 60000 ∨ count > 100000
+      if !(kind = "chan" ∨ kind = "unix") ∨ !(mode = "b" ∨ mode = "nb") ∨ ((skbuf ∨ bidir) ∧ kind ≠ "unix") ∨ n < 1 ∨ n > 8 ∨ cap < 8 ∨ cap > 60000 ∨ count > 100000
       then "BADARG" else
       -- one admissible delivery order (sender-major); the check compares per sender
       let recs := (List.range n).flatMap fun s => (List.range count).map fun q => s!"{s}:{q}:{xptSize seed n s q cap}:1:1"
@@ -69,7 +71,7 @@ def orcC19 (args : List String) : String :=
         | none => "FAIL unparsable-observation"
         | some rx =>
           if !C19.check (xptLens seed n count cap) rx then "FAIL delivery"
-          else if (mode = "nb" || mode = "nbs") && !(e1 = "ERR" && e2 = "fast") then "FAIL empty-nonblocking-recv"
+          else if (mode = "nb" || mode = "nbs" || mode = "nbd" || mode = "nbsd") && !(e1 = "ERR" && e2 = "fast") then "FAIL empty-nonblocking-recv"
           else "PASS"
       | _ => "FAIL unparsable-observation"
     | _, _, _, _ => "BADARG"
